@@ -127,6 +127,12 @@ pub fn replay(args: &[String]) {
             if op.get("evict").is_some() {
                 continue;
             }
+            if let Some(a) = op.get("allowed") {
+                if let Some(arr) = a.as_array() {
+                    sut.parsers[p].allowed_versions = arr.iter().filter_map(|x| x.as_u64()).map(|x| x as u16).collect();
+                }
+                continue;
+            }
             let b = crate::util::unhex(op["hex"].as_str().unwrap_or(""));
             let c = crate::props::cost::measure(&mut sut, p, &b);
             let v = match crate::props::cost::judge(&c, &mut stats) {
@@ -139,6 +145,15 @@ pub fn replay(args: &[String]) {
     }
     for op in r["ops"].as_array().cloned().unwrap_or_default() {
         let p = op["parser"].as_u64().unwrap_or(0) as usize;
+        if let Some(a) = op.get("allowed") {
+            if let Some(arr) = a.as_array() {
+                sut.parsers[p].allowed_versions = arr.iter().filter_map(|x| x.as_u64()).map(|x| x as u16).collect();
+            } else if a.as_str() == Some("all-65536") {
+                sut.parsers[p].allowed_versions = (0..=65535u16).collect();
+            }
+            println!("parser {}: application assigns allowed_versions = {}", p, a);
+            continue;
+        }
         if let Some(e) = op.get("evict") {
             let map = e["map"].as_str().unwrap_or("");
             let id = e["id"].as_u64().unwrap_or(0) as u16;
